@@ -1,4 +1,22 @@
-//! further ops (codec, keys, verify, ...) -- filled in property by property
+//! further ops (codec, keys, verify, ...)
+use crate::util::*;
+use falcon_rust::verif_hooks as vh;
+
+fn opt_hex(v: Option<Vec<u8>>) -> String {
+    match v {
+        None => "None".to_string(),
+        Some(v) => format!("Some {}", hex(&v)),
+    }
+}
+
 pub fn exec(tok: &[&str]) -> String {
-    panic!("bad-op {}", tok[0])
+    match tok[0] {
+        // ---- signature codec (C07, C03) --------------------------------------------------------
+        "decompress" => crate::ops::opt_ints_pub(vh::decompress(&unhex(tok[2]), tok[1].parse().unwrap())),
+        "compress" => opt_hex(vh::compress(&parse_ints::<i16>(tok[2]), tok[1].parse().unwrap())),
+        // the harness's own bit-list reference (compared with the Lean specification, not with the code)
+        "ref_decompress" => crate::ops::opt_ints_pub(crate::codecref::ref_decompress(&unhex(tok[2]), tok[1].parse().unwrap())),
+        "ref_compress" => opt_hex(crate::codecref::ref_compress(&parse_ints::<i32>(tok[2]), tok[1].parse().unwrap())),
+        _ => panic!("bad-op {}", tok[0]),
+    }
 }
